@@ -37,10 +37,16 @@ impl RsaPublicKey {
     pub fn to_public_key_der(&self) -> (r: Result<Document, SpkiError>) { unimplemented!() }
 }
 impl Document { #[verifier::external_body] pub fn to_vec(&self) -> Vec<u8> { unimplemented!() } }
+/// "these 32 bytes are what one successful call of the operating-system RNG wrote": uninterpreted, produced only by
+/// `SysRng::try_fill_bytes`, so a clause that demands it of a token is provable only if the token *is* that buffer, unmodified
+/// (randomness / unpredictability as such is a probabilistic statement and outside any contract)
+pub uninterp spec fn from_os_rng(bytes: Seq<u8>) -> bool;
 impl SysRng {
     /// fills the buffer with operating-system randomness or fails; the length does not change
     #[verifier::external_body]
-    pub fn try_fill_bytes(&mut self, dest: &mut [u8; 32]) -> (r: Result<(), SysError>) { unimplemented!() }
+    pub fn try_fill_bytes(&mut self, dest: &mut [u8; 32]) -> (r: Result<(), SysError>)
+        ensures r is Ok ==> from_os_rng(final(dest)@)
+    { unimplemented!() }
 }
 
 } // verus!
